@@ -1128,6 +1128,24 @@ class NpModule:
             return SymInt(card(a.nonzero_term(), a.space), True, "int64")
         raise Unsupported("count_nonzero")
 
+    def isinf(self, v):
+        if hasattr(v, "isinf") and not isinstance(v, float):
+            return v.isinf()
+        if isinstance(v, float):
+            return v in (float("inf"), float("-inf"))
+        if isinstance(v, (int, Sym)):
+            return False
+        raise Unsupported("np.isinf")
+
+    def isfinite(self, v):
+        if hasattr(v, "isinf") and not isinstance(v, float):
+            return sym_not(sym_or(v.isinf(), v.isnan()))
+        if isinstance(v, float):
+            return v == v and v not in (float("inf"), float("-inf"))
+        if isinstance(v, (int, Sym)):
+            return True
+        raise Unsupported("np.isfinite")
+
     def isnan(self, v):
         if hasattr(v, "isnan") and not isinstance(v, float):
             return v.isnan()
